@@ -317,6 +317,10 @@ fn huge_request<C: CellType>(cx: &mut Context<C>, h: Huge) {
             child::log_note(&format!("huge-after-return-lost={o}"));
         }
     }
+    if matches!(h.kind % 6, 3 | 4) && cx.memory.read(lo) != C::ONE {
+        // the far write came back, so the far cell must now hold what was written
+        child::log_note(&format!("huge-after-return-lost={lo}"));
+    }
     child::log_note(&format!("huge-returned={acc},{unowned}"));
 }
 
